@@ -256,6 +256,16 @@ def run(chk):
     ndocs = 250 if tier == "quick" else 4000
     docs = [("raw:" + k, v) for k, v in RAW_DOCS.items()]
     docs.append(("valid", VALID_DOC))
+    # names that YAML reads as numbers, booleans or null - as experiment, executor, suite, benchmark and machine names
+    for odd in ["2024", "1.5", "yes", "~", "0x1F", "1e3", "on"]:
+        for where in ("experiment", "executor", "suite", "benchmark", "machine"):
+            names = dict(experiment="X", executor="E", suite="S", benchmark="b", machine="m")
+            names[where] = odd
+            text = ("executors:\n  %(executor)s: {executable: x}\nbenchmark_suites:\n  %(suite)s: {gauge_adapter: Time, command: c, benchmarks: [%(benchmark)s]}\n"
+                    "machines:\n  %(machine)s: {cores: [1]}\nexperiments:\n  %(experiment)s: {executions: [%(executor)s], suites: [%(suite)s]}\n  Second: {executions: [%(executor)s], suites: [%(suite)s]}\n") % names
+            docs.append(("odd-name:%s=%s" % (where, odd), text))
+            docs.append(("odd-name:%s=%s:nope" % (where, odd), text))
+            docs.append(("odd-name:%s=%s:default" % (where, odd), "default_experiment: Nightly\n" + text))
     for k, v in SHARED_DOCS.items():
         for sel in ([], ["all"], None):
             docs.append(("valid-shared:" + k, v) if sel is None else ("valid-shared:" + k + ":" + " ".join(sel), v))
@@ -289,6 +299,8 @@ def run(chk):
             argv = ["-E", "-D", path]
             if label.startswith("valid-shared:") and label.endswith(":all"):
                 argv.append("all")
+            elif label.startswith("odd-name:") and label.endswith(":nope"):
+                argv.append("nope")
             elif i % 7 == 3 and not label.startswith("valid"):
                 argv.append(rng.choice(["X1", "X2", "all", "nope"]))
             rc, out = run_main(argv)
